@@ -60,7 +60,7 @@ def sub_monitor(ops, impl):
         if f[0] == "new":
             d = {}
         elif f[0] == "set":
-            if f[2] == "-":
+            if f[2] in ("-", "="):      # nil, or empty but not nil: both mean "no entry"
                 d.pop(f[1], None)
             else:
                 d[f[1]] = f[2]
@@ -103,7 +103,7 @@ def main(tier=None):
     samples = []
     N = 3 if c.tier == "quick" else 4
     ret_steps = [f"ins {k} {v}" for k in KEYS for v in V] + [f"rm {k}" for k in KEYS]
-    sub_steps = [f"set {k} {v}" for k in KEYS for v in ("01", "-")] + [f"app {k} 02" for k in KEYS]
+    sub_steps = [f"set {k} {v}" for k in KEYS for v in ("01", "-", "=")] + [f"app {k} 02" for k in KEYS]
     for name, dom, steps, obs, mon in (("ret", "rettree", ret_steps, observe_ret(KEYS), ret_monitor),
                                        ("sub", "subtree", sub_steps, observe_sub(KEYS), sub_monitor)):
         ops, cases = [], 0
@@ -133,7 +133,7 @@ def main(tier=None):
                     ops.append(f"ins {k} {rng.choice(V + ['03', '-'])}" if rng.random() < 0.6 else f"rm {k}")
                 else:
                     k = rng.choice(keys)
-                    ops.append(rng.choice([f"set {k} 01", f"set {k} -", f"app {k} 02", f"set {k} 0405"]))
+                    ops.append(rng.choice([f"set {k} 01", f"set {k} -", f"set {k} =", f"app {k} 02", f"set {k} 0405"]))
             ops += (observe_ret(keys) if dom == "rettree" else observe_sub(keys))
             cases += 1
         c.run_suite(Suite(f"{name}-random-len6plus", dom, ops, mon, {"cases": cases, "nontrivial": cases}))
